@@ -135,12 +135,14 @@ pub fn c14(args: &Args, reg: &[TypeEntry], log: &mut Log) {
                 }
             }
         }
-        if let (Some((a, _)), Some(fi)) = (bodies.get("container-as"), &finline) {
-            match parse::parse_type(fi) {
-                Ok(ft) => {
-                    checks.insert("container-as~F".into(), equiv(&env, a, &ft));
+        for role in ["container-as", "container-as-enum", "container-as-empty-enum"] {
+            if let (Some((a, _)), Some(fi)) = (bodies.get(role), &finline) {
+                match parse::parse_type(fi) {
+                    Ok(ft) => {
+                        checks.insert(format!("{role}~F"), equiv(&env, a, &ft));
+                    }
+                    Err(err) => problems.push(json!({"role": role, "kind": "unparseable-type", "detail": format!("{fi}: {err}")})),
                 }
-                Err(err) => problems.push(json!({"role": "container-as", "kind": "unparseable-type", "detail": format!("{fi}: {err}")})),
             }
         }
         if let (Some((a, _)), Some((b, _))) = (bodies.get("flat"), bodies.get("flat-of-container-as")) {
